@@ -48,8 +48,11 @@ static void run_case(const Scene &sc, const vector<Op> &ops) {
             vpsc::Variables vs; for (auto n : nodes) vs.push_back(n->var); vpsc::Constraints cs;
             for (auto n : nodes) { n->var->desiredPosition = n->rect->getCentreD(dim); n->var->weight = 1; }
             nodes[op.node]->var->desiredPosition = op.target; nodes[op.node]->var->weight = 10000;
-            bool loop = false;
-            { TopologyConstraints t(dim, nodes, es, nullptr, vs, cs); int lb = 100; bool in; do { in = t.solve(); lb--; } while (in && lb > 0); if (lb == 0) loop = true; }
+            bool loop = false, asserted = false;
+            // an internal assertion (several of them ARE the property) must not hide the state it left behind:
+            // catch it here, judge the state with the harness's own oracle, then stop this history
+            try { TopologyConstraints t(dim, nodes, es, nullptr, vs, cs); int lb = 100; bool in; do { in = t.solve(); lb--; } while (in && lb > 0); if (lb == 0) loop = true; }
+            catch (vpsc::CriticalFailure &f) { asserted = true; ctx.library_abort(f.what(), desc); }
             for (auto c : cs) delete c;
             ctx.count("transitions"); ctx.count("states");
             if (loop) ctx.count("loop_breaker_hit");
@@ -86,6 +89,7 @@ static void run_case(const Scene &sc, const vector<Op> &ops) {
             for (size_t ei = 0; ei < es.size(); ei++) for (size_t v = 0; v < N; v++) { if ((int)v == sc.edges[ei].a || (int)v == sc.edges[ei].b) continue;
                 double s0 = swept(before[ei], cb[v][0], cb[v][1]), s1 = swept(after[ei], nodes[v]->rect->getCentreX(), nodes[v]->rect->getCentreY());
                 if (fabs(s1 - s0) > 1.5 * M_PI) ctx.violation("node_jumped_across_edge", {}, desc, mcx::fmt("edge %zu node %zu swept angle %g -> %g", ei, v, s0, s1)); }
+            if (asserted) break;
         }
     } catch (vpsc::CriticalFailure &f) { ctx.library_abort(f.what(), base + ops_str(ops, ops.size())); }
     catch (...) { ctx.count("aborted_by_exception"); }
